@@ -20,6 +20,7 @@ pub mod c16;
 pub mod c17;
 pub mod c18;
 pub mod common;
+pub mod fuzzapi;
 pub mod statgen;
 pub mod targets;
 
